@@ -129,13 +129,23 @@ def reaches_leaf(crate, start, trait_sub, name, memo=None):
     return memo
 
 
+def suspension_follows(body, b):
+    """a suspension point can still be reached after block b: what b did can be left behind by dropping the future there"""
+    ys = set(body.yields())
+    if not ys:
+        return False
+    r = body.reach_from_succ(b)
+    return bool(ys & r)
+
+
 def stores_before_first_yield(crate, body, adt_sub, depth=3):
-    """field stores to ADT `adt_sub` executed before the first suspension of coroutine `body`
-    (directly, or through non-async workspace helpers called there, to `depth`)."""
+    """field stores to ADT `adt_sub` executed before the first suspension of coroutine `body` and followed by a suspension
+    (directly, or through non-async workspace helpers called there, to `depth`).  A store on a path that suspends nowhere
+    (e.g. the frame is already buffered: parse, update the cursors, return) runs to completion and is not at stake."""
     region = pre_yield_region(body)
     out = []
     for b, i, s in C.field_stores(body, adt_sub):
-        if b in region:
+        if b in region and suspension_follows(body, b):
             out.append((body, b, i, s))
 
     def helper_stores(fnbody, d):
@@ -151,7 +161,7 @@ def stores_before_first_yield(crate, body, adt_sub, depth=3):
         return r
 
     for b, t in body.iter_terms('call'):
-        if b not in region:
+        if b not in region or not suspension_follows(body, b):
             continue
         cd = t['callee'].get('def')
         cb = crate.by_path.get(cd) if cd else None
@@ -170,7 +180,7 @@ def mutating_calls_before_first_yield(crate, body, adt_sub):
     region = pre_yield_region(body)
     out = []
     for b, t in body.iter_terms('call'):
-        if b not in region:
+        if b not in region or not suspension_follows(body, b):
             continue
         nm = t['callee'].get('name')
         if nm in PURE_ACCESS or t.get('mac'):
